@@ -1,4 +1,4 @@
-// Candidate finding (C03, unit boolean_complex_scorer, witness variant `--define F_FASTPATH_MSM`): "the answer is the same whether it
+// Finding (C03, unit boolean_complex_scorer), since fixed: "the answer is the same whether it
 // is obtained by counting, by collecting document ids or by ranking".
 //
 // BooleanWeight::scorer (src/query/boolean_query/boolean_weight.rs) has a fast path for a query with exactly ONE clause:
@@ -14,7 +14,10 @@
 //
 // Ordinary integration test, public API only: copy into tests/ of a copy of the tree,
 //   cargo test --offline --test demo_boolean_msm_fastpath
-// Recorded 2026-09-26 on the unchanged /repo:
+// FIXED in /repo afterwards (commit "fix: single-clause boolean query ignored minimum_number_should_match when counting": the fast path
+// answers EmptyScorer when minimum_number_should_match > usize::from(occur == Occur::Should)); unit boolean_complex_scorer now proves the
+// unrestricted claim and its mutant fastpath_msm_fix_reverted.patch restores the defect.  (This test file was not re-run after the fix.)
+// Recorded 2026-09-26 on the tree BEFORE the fix:
 //   control_two_should_clauses_three_required_matches_nothing            ok
 //   one_should_clause_two_required_same_answer_for_every_collector       FAILED  count=2 docset=0 ranked=0
 //   one_must_clause_one_should_required_same_answer_for_every_collector  FAILED  count=2 docset=0 ranked=0
